@@ -232,6 +232,23 @@ def pyPow (x y : PyNum) : R Val :=
   | none =>
     if m1 < 0 then .error .valueErr else unmodelled
 
+/-- `$mod` (aggregate.py:383-388): two ints with a non-zero divisor give the int remainder with the
+    sign of the dividend, anything else goes through `math.fmod` -/
+def pyMod (x y : PyNum) : R Val :=
+  match x, y with
+  | .i a, .i b => if b == 0 then pyFmod x y else .ok (.int (Int.tmod a b))
+  | _, _ => pyFmod x y
+
+/-- `$pow` (aggregate.py:389-396): `math.pow` first (so its errors are kept); two ints with a
+    non-negative exponent whose exact power fits in 64 bits give that int -/
+def pyPowT (x y : PyNum) : R Val :=
+  match x, y with
+  | .i a, .i b =>
+    if b ≥ 0 && b ≤ 64 && decide (-(2 : Int) ^ 63 ≤ a ^ b.toNat) && decide (a ^ b.toNat < (2 : Int) ^ 63)
+    then .ok (.int (a ^ b.toNat))
+    else pyPow x y
+  | _, _ => pyPow x y
+
 /-- integer square root by bisection on a fuel -/
 def isqrtAux : Nat → Nat → Nat → Nat → Nat
   | 0, lo, _, _ => lo
@@ -255,15 +272,16 @@ def pySqrt (x : PyNum) : R Val :=
 def floorDy (m : Int) (e : Nat) : Int := m / pow2 e
 def ceilDy (m : Int) (e : Nat) : Int := -((-m) / pow2 e)
 
-/-- the unary arithmetic operators on a number (aggregate.py:346-361) -/
+/-- the unary arithmetic operators on a number (aggregate.py:349-364); `$ceil $floor $trunc` keep
+    the operand's type: `float(math.ceil(x))` for a float -/
 def unaryArith (op : String) (x : PyNum) : R Val :=
   if op = "$abs" then (match x with | .i n => .ok (.int (Int.ofNat n.natAbs)) | .f m e => mkF (Int.ofNat m.natAbs) e)
-  else if op = "$ceil" then (match x with | .i n => .ok (.int n) | .f m e => .ok (.int (ceilDy m e)))
-  else if op = "$floor" then (match x with | .i n => .ok (.int n) | .f m e => .ok (.int (floorDy m e)))
+  else if op = "$ceil" then (match x with | .i n => .ok (.int n) | .f m e => mkF (ceilDy m e) 0)
+  else if op = "$floor" then (match x with | .i n => .ok (.int n) | .f m e => mkF (floorDy m e) 0)
   else if op = "$trunc" then
     (match x with
      | .i n => .ok (.int n)
-     | .f m e => .ok (.int (if m ≥ 0 then floorDy m e else ceilDy m e)))
+     | .f m e => mkF (if m ≥ 0 then floorDy m e else ceilDy m e) 0)
   else if op = "$sqrt" then pySqrt x
   else if op = "$exp" then (if x.isZero then .ok (.dbl 1 0) else unmodelled)
   else if op = "$ln" || op = "$log10" then
@@ -483,19 +501,44 @@ def mulNums : List PyNum → PyNum → R PyNum
     | none => unmodelled
     | some a => do let a ← a.check; mulNums r a
 
-/-- `$add` / `$multiply` on `list(parse_many(values))` (aggregate.py:392-404) -/
+/-- the same loop for `$add` (aggregate.py:409-419): one datetime is set aside (`date`), a second
+    one is an OperationFailure; `.ok none` = `return None`; the numbers come back in order -/
+def checkAdd : List Val → Option Int → R (Option (Option Int × List PyNum))
+  | [], d => .ok (some (d, []))
+  | .null :: _, _ => .ok none
+  | .date _ (some _) :: _, _ => unmodelled
+  | .date u none :: r, none => checkAdd r (some u)
+  | .date _ none :: _, some _ => .error .opFail
+  | v :: r, d =>
+    match toPyNum v with
+    | none => .error .other                       -- AssertionError
+    | some n => do
+      match ← checkAdd r d with
+      | none => pure none
+      | some (d', ns) => pure (some (d', n :: ns))
+
+/-- `date + timedelta(milliseconds=n)`: exact when the sum is a whole number of microseconds -/
+def datePlus (u : Int) (n : PyNum) : R Val :=
+  match n with
+  | .i k => .ok (.date (u + k * 1000) none)
+  | .f m e => if (m * 1000) % pow2 e == 0 then .ok (.date (u + m * 1000 / pow2 e) none) else unmodelled
+
+/-- `$add` / `$multiply` on `list(parse_many(values))` (aggregate.py:405-425) -/
 def naryArith (op : String) (vals : List Val) : R Val :=
   if vals.isEmpty then .error .other               -- AssertionError
+  else if op = "$add" then do
+    match ← checkAdd vals none with
+    | none => pure .null
+    | some (none, ns) => do (← sumNums ns (.i 0)).toVal
+    | some (some u, ns) => do datePlus u (← sumNums ns (.i 0))
   else do
     match ← checkNums vals with
     | none => pure .null
     | some ns =>
-      if op = "$add" then do (← sumNums ns (.i 0)).toVal
-      else
-        match vals, ns with
-        | [v], _ => pure v                          -- `reduce` over one item returns it (a bool stays a bool)
-        | _, n :: r => do (← mulNums r n).toVal
-        | _, [] => .error .other
+      match vals, ns with
+      | [v], _ => pure v                          -- `reduce` over one item returns it (a bool stays a bool)
+      | _, n :: r => do (← mulNums r n).toVal
+      | _, [] => .error .other
 
 /-- `$subtract` (aggregate.py:383-390) -/
 def pySubtract (a b : Val) : R Val :=
@@ -523,8 +566,8 @@ def binaryArith (op : String) (a b : Val) : R Val :=
     match toPyNum a, toPyNum b with
     | some x, some y =>
       if op = "$divide" then pyDivide x y
-      else if op = "$mod" then pyFmod x y
-      else if op = "$pow" then pyPow x y
+      else if op = "$mod" then pyMod x y
+      else if op = "$pow" then pyPowT x y
       else if op = "$log" then
         (if x.isZero || x.isNeg || y.isZero || y.isNeg then .error .valueErr
          else if Num.eq y.num ⟨1, 0⟩ then .error .other      -- ZeroDivisionError
@@ -555,13 +598,35 @@ def compareOp (op : String) (a b : Val) : R Val :=
   else if op = "$lte" then (bsonCompare .lte a b true).map .bool
   else .error .notImpl                                       -- `$cmp`
 
+/-- a comparison on `_parse_or_nothing` of both operands (aggregate.py:498-511): NOTHING is equal
+    to NOTHING only and sorts before every value (`op(a is not NOTHING, b is not NOTHING)`) -/
+def compareOpt (op : String) (a b : Option Val) : R Val :=
+  match a, b with
+  | some x, some y => compareOp op x y
+  | _, _ =>
+    let p := a.isSome
+    let q := b.isSome
+    if op = "$gt" then .ok (.bool (p && !q))
+    else if op = "$gte" then .ok (.bool (p || !q))
+    else if op = "$lt" then .ok (.bool (!p && q))
+    else if op = "$lte" then .ok (.bool (!p || q))
+    else if op = "$eq" then .ok (.bool (!p && !q))
+    else if op = "$ne" then .ok (.bool (p || q))
+    else .error .notImpl                                       -- `$cmp`
+
 def strVals : List Val → R (List String)
   | [] => .ok []
   | v :: r => do let s ← pyStr v; let ss ← strVals r; pure (s :: ss)
 
-/-- `$concat` on `list(parse_many(values))` (aggregate.py:474-476) -/
+def isStr : Val → Bool
+  | .str _ => true
+  | _ => false
+
+/-- `$concat` on `list(parse_many(values))` (aggregate.py:497-503): an operand that is neither
+    null nor a string is an OperationFailure -/
 def concatOp (vals : List Val) : R Val :=
-  if vals.any isNull then .ok .null
+  if vals.any (fun v => !isNull v && !isStr v) then .error .opFail
+  else if vals.any isNull then .ok .null
   else do pure (.str (String.join (← strVals vals)))
 
 /-- `$toLower` / `$toUpper` on the parsed operand (aggregate.py:468-473) -/
@@ -613,15 +678,23 @@ def substrOp (sv first len : Val) : R Val := do
               | none => .error .typeErr
               | some li => pure (.str (String.ofList (pySlice s.toList fi (some (fi + li)))))
 
-/-- `$strcasecmp` (aggregate.py:513-514): compares `str(a)` and `str(b)` as they are -/
+/-- one operand of `$strcasecmp`: `'' if parsed is None or parsed is NOTHING else
+    str(parsed).upper()` (the caller has read a missing operand as null) -/
+def upperArg (v : Val) : R String :=
+  match v with
+  | .null => .ok ""
+  | v => do asciiUpper (← pyStr v)
+
+/-- `$strcasecmp` (aggregate.py:540-547): compares the upper-cased `str()` of the operands -/
 def strcasecmpOp (a b : Val) : R Val := do
-  let x ← pyStr a
-  let y ← pyStr b
+  let x ← upperArg a
+  let y ← upperArg b
   pure (.int (if x = y then 0 else if x < y then -1 else 1))
 
 /-- `$toString` on the parsed operand (aggregate.py:809-813) -/
 def toStringOp (v : Val) : R Val :=
   match v with
+  | .null => .ok .null
   | .bool b => .ok (.str (if b then "true" else "false"))
   | .date u none => .ok (.str (isoZ u))
   | .date _ (some _) => unmodelled
@@ -631,6 +704,7 @@ def toStringOp (v : Val) : R Val :=
 def dateOp (op : String) (v : Val) : R Val :=
   if datePartOps.contains op then
     match v with
+    | .null => .ok .null                   -- the parts of a null (or missing) date are null
     | .date u none => datePart op u
     | .date _ (some _) => unmodelled
     | _ => .error .attrErr
@@ -698,8 +772,10 @@ def groupingOnValue (op : String) (v : Val) : R Val :=
     if (op = "$first" || op = "$last") && !b then .ok .null else .error .typeErr
   | _ => unmodelled                                       -- strings / dicts iterate differently
 
-/-- `$arrayElemAt` on the parsed array and index (aggregate.py:417-422); `none` = KeyError -/
+/-- `$arrayElemAt` on the parsed array and index (aggregate.py:431-441), a missing operand having
+    been read as null; `none` = KeyError -/
 def arrayElemAtOp (a i : Val) : R (Option Val) :=
+  if isNull a || isNull i then .ok (some .null) else
   match a with
   | .arr xs =>
     match intLike i with
@@ -749,11 +825,21 @@ def iterErr {α} (v : Val) : R α :=
   | .null | .int _ | .dbl _ _ | .bool _ | .date _ _ | .oid _ => .error .typeErr
   | _ => unmodelled                       -- strings and dicts iterate (characters / keys)
 
-/-- `x in container` for `$in` (aggregate.py:1037-1038) -/
+/-- `x in container` for `$in` (aggregate.py:1090-1101): the container must be a list -/
 def inOp (x a : Val) : R Val :=
   match a with
   | .arr xs => .ok (.bool (pyIn x xs))
-  | v => iterErr v
+  | _ => .error .opFail
+
+/-- `$in` on `_parse_or_nothing` of both operands: a missing container is not a list, a missing
+    value (`NOTHING`) is in no list -/
+def inOpt (x a : Option Val) : R Val :=
+  match a with
+  | none => .error .opFail
+  | some c =>
+    match x with
+    | none => (inOp .null c).map (fun _ => .bool false)
+    | some v => inOp v c
 
 def unionLoop : List Val → List Val → List Val
   | [], acc => acc
